@@ -94,7 +94,7 @@ pub fn reachable(
   let mut out = BTreeMap::new();
   let mut seen: HashSet<ModuleSpecifier> = HashSet::new();
   let mut queue: VecDeque<ModuleSpecifier> = VecDeque::new();
-  let mut enqueue = |s: &ModuleSpecifier, seen: &mut HashSet<ModuleSpecifier>, queue: &mut VecDeque<ModuleSpecifier>| {
+  let enqueue = |s: &ModuleSpecifier, seen: &mut HashSet<ModuleSpecifier>, queue: &mut VecDeque<ModuleSpecifier>| {
     if seen.insert(s.clone()) {
       queue.push_back(s.clone());
     }
@@ -287,7 +287,7 @@ pub fn expected_failures(
       }
       Visited::Module => {
         let Some(SlotRef::Module(m)) = slots.get(key) else { continue };
-        let mut check = |ctx: &mut Ctx, types: bool, text: &str, r: &Resolution, _dynamic: bool, out: &mut Vec<ExpectedFailure>| {
+        let check = |ctx: &mut Ctx, types: bool, text: &str, r: &Resolution, _dynamic: bool, out: &mut Vec<ExpectedFailure>| {
           let tag = if types { "T:" } else { "R:" };
           match r {
             Resolution::None => {}
